@@ -8,3 +8,10 @@ def register(prop, TB_COMMON):
              "C11: bytes::BytesMut::{advance_mut, split, capacity}, linkedbytes 0.1.8 LinkedBytes::insert are modelled (spare capacity conserved by split), compared through node lengths / index / zero_copy_len on every request",
          ],
          explanation="uw: real TBinaryUnsafeOutputProtocol over BytesMut / LinkedBytes (zero-copy off/on) in a window of exactly the copied size (+slack), compared with the Lean window machine (bytes, final index, zero_copy_len, node lengths) and, by the oracle, with the checked writer; ur: real TBinaryUnsafeInputProtocol on inputs the checked reader accepts, compared with the Lean (advanced, index) machine and, by the oracle, with the checked reader's values and consumption.")
+    prop("C12", lean_props=["C12", "Tables"],
+         trusted_base=TB_COMMON + [
+             "C12: tokio AsyncReadExt::{read_exact, read_u8, read_i8, read_iNN[_le], read_f64[_le]}, Take + read_to_end are modelled as 'gather exactly n bytes or UnexpectedEof, never asking the reader for more than is still wanted' (Thrift/Async.lean readExact / takeReadToEnd); an async fn is a resumable program whose only contact with the reader is such a pull",
+             "C12: the harness executor (no-op waker, busy poll) and the scripted AsyncRead stand for every executor and transport; wake-up protocol, cancellation and drop mid-poll are not modelled",
+             "C12: a Rust slice holds at most isize::MAX bytes (hypothesis bs.length < 2^63 of the theorems)",
+         ],
+         explanation="a: real TAsyncBinaryProtocol / binary_le / TAsyncCompactProtocol over a scripted AsyncRead (chunks + injected Pending) polled by a hand-written executor; dynamic reading interpreter over TAsyncInputProtocol, async skipper in and out of struct context, message envelopes; the answer (values, bytes pulled, failing step) is compared with the Lean stream semantics, and the oracle compares it with the in-memory protocol on the flattened bytes.")
